@@ -282,6 +282,12 @@ func (app *EVMApp) executeKVTx(state *estate.StateDB, tx *etypes.Transaction) (*
 		return nil, err
 	}
 	from, _ := etypes.Sender(app.Signer, tx)
+	// same replay protection as for EVM transactions (StateTransition.preCheck)
+	if nonce := state.GetNonce(from); nonce < tx.Nonce() {
+		return nil, core.ErrNonceTooHigh
+	} else if nonce > tx.Nonce() {
+		return nil, core.ErrNonceTooLow
+	}
 	state.SetNonce(from, state.GetNonce(from)+1)
 	return kvData, nil
 }
